@@ -416,6 +416,32 @@ theorem success_sound {reqs : List Request} {db : FetchScript} {storeOk : Bool} 
     · exact Or.inl (pruneDB_mem_fst h1)
     · exact Or.inr ⟨m, by have := (mem_enumFrom hm).1; exact List.mem_of_getElem? this, hxm⟩
 
+/-- **The specification stream's soundness clause is `success_sound`.**  `Spec.soundAt` — what the driver
+    evaluates on the implementation's observed results — holds of every success the model reports (the
+    answers being Go maps: one entry per key). -/
+theorem success_sound_spec {reqs : List Request} {db : FetchScript} {storeOk : Bool} {fetchers : List FetchScript} {now : Nat}
+    {rs : List Bool} {tr : Trace} (h : verifyJSONs reqs db storeOk fetchers now = (.ok rs, tr))
+    (hnd : ∀ m, db = some m → (m.map Prod.fst).Nodup) (hnf : ∀ m, some m ∈ fetchers → (m.map Prod.fst).Nodup)
+    (i : Nat) (hi : rs[i]? = some true) :
+    ∃ r, reqs[i]? = some r ∧ Spec.soundAt r (db.getD [] :: fetchers.filterMap id) now = true := by
+  obtain ⟨r, hr, hlo, s, hs, halg, k, hsrc, hv, hre, hlen, hver⟩ := success_sound h i hi
+  refine ⟨r, hr, ?_⟩
+  unfold Spec.soundAt
+  rw [List.any_eq_true]
+  refine ⟨s, ?_, ?_⟩
+  · unfold Spec.edSigs; simp only [hlo, ↓reduceIte, mem_filter]; exact ⟨hs, halg⟩
+  · rw [List.any_eq_true]
+    have good : Spec.good r s k now = true := by
+      rw [good_eq, hv]
+      simp only [verifyJSON, hre, hlen, hver, beq_self_eq_true, Bool.and_self]
+    rcases hsrc with ⟨fromDB, hdb, hm⟩ | ⟨m, hmf, hm⟩
+    · refine ⟨fromDB, by simp [hdb], ?_⟩
+      unfold Spec.goodIn
+      rw [lookupIn_eq, AList.lookup_of_mem_nodup (hnd fromDB hdb) hm]; exact good
+    · refine ⟨m, by simp only [mem_cons, mem_filterMap, id_eq, exists_eq_right]; exact Or.inr hmf, ?_⟩
+      unfold Spec.goodIn
+      rw [lookupIn_eq, AList.lookup_of_mem_nodup (hnf m hmf) hm]; exact good
+
 /-- **The validity rule is the property's**: before `expired_ts` for an expired key; otherwise, where the
     room version demands strict checking, at or before `valid_until_ts` capped at seven days from now (and
     never for a key without validity); under the lenient rule any unexpired key is accepted. -/
